@@ -10,7 +10,7 @@
    executed template changes: at [call_enter] (the {call} case below repeats the
    one of [walk_node] with the callee's params for the callee's walk).  Nothing
    else differs: [walkx] and [walk] return the same outcome and the same final
-   state up to the counter (Proofs/CheckerExcuseRel.v), so [render_x] is [render]
+   state up to the counter (Proofs/CheckerExcuseRel.v), so [render_xc] is [render]
    with the refined counter.  Definitions only. *)
 From Soy Require Import Model.Bytes Model.Num Model.Values Model.Outcome Model.Ast Model.Escape Model.Interp Model.RefView Model.MsgId Model.Compile Model.Checker Spec.Safety.
 Open Scope N_scope.
@@ -58,7 +58,7 @@ Fixpoint walkx (ps : list bstr) (fuel : nat) (n : node) {struct fuel} : M value 
   end.
 
 (* [render] with the refined counter *)
-Definition render_x (fuel : nat) (name : bstr) (data_id : N) (data : list (bstr * value))
+Definition render_xc (fuel : nat) (name : bstr) (data_id : N) (data : list (bstr * value))
            (cl : option nat) (bl : option N) (first_id : N) : render_result :=
   match find_template (r_templates (c_reg cf)) name with
   | None => {| rr_outcome := Err e_notemplate; rr_writes := []; rr_file := []; rr_line := 0; rr_unbound := 0; rr_shared_writes := [] |}
